@@ -7,7 +7,7 @@
 (* evaluated non-halting: each failure adds a record to viol, so one run   *)
 (* reports every violation of every property in every concatenated trace.  *)
 (***************************************************************************)
-EXTENDS ResObserver, CacheTrace, SubQueueTrace, ResQueueTrace, Json, SequencesExt
+EXTENDS ResObserver, CacheTrace, SubQueueTrace, ResQueueTrace, SubAccessTrace, Json, SequencesExt
 
 Trace == ndJsonDeserialize("trace.ndjson")
 
@@ -27,7 +27,7 @@ NewClient(lg, v111, http) ==
 InitO(tr) ==
     [tr |-> tr, conns |-> <<>>, ann |-> <<>>, norm |-> <<>>, keyn |-> <<>>,
      mqsubs |-> {}, mqpend |-> <<>>, handed |-> <<>>, window |-> {},
-     refetch |-> <<>>, ctrig |-> <<>>, resets |-> <<>>, thr |-> <<>>, stop |-> [l |-> 0, cause |-> "", open |-> {}], down |-> FALSE, hadStop |-> FALSE, final |-> FALSE, resetObl |-> {}, keyq |-> <<>>, qev |-> <<>>, ce |-> <<>>, sq |-> <<>>, rq |-> <<>>]
+     refetch |-> <<>>, ctrig |-> <<>>, resets |-> <<>>, thr |-> <<>>, stop |-> [l |-> 0, cause |-> "", open |-> {}], down |-> FALSE, hadStop |-> FALSE, final |-> FALSE, resetObl |-> {}, keyq |-> <<>>, qev |-> <<>>, ce |-> <<>>, sq |-> <<>>, rq |-> <<>>, sa |-> <<>>]
 
 Short(s) == IF Len(s) > 48 THEN SubSeq(s, 1, 24) \o "...(" \o ToString(Len(s)) \o " characters)" ELSE s
 
@@ -415,9 +415,18 @@ H_note0(r) ==
             IN Res([o EXCEPT !.rq = Put(@, r.n, st.x)], {V(e.p, "work queue of " \o Short(r.n) \o ": " \o e.m, "") : e \in st.errs})
       [] OTHER -> Res(o, {})
 
+(* C05 / C04: a subscription's access cache follows SubAccess.tla *)
+H_note1(r) ==
+    LET b == H_note0(r)
+    IN IF r.kind \in SATNotes /\ "sp" \in DOMAIN r /\ ~o.hadStop /\ o.stop.l = 0
+       THEN LET st == SATStep(Get(o.sa, r.sp, SATNew), r)
+            IN Res([b.o EXCEPT !.sa = Put(@, r.sp, st.x)],
+                   b.v \cup {V("C05", "subscription " \o Short(r.rid) \o " of " \o r.c \o ": " \o m, "") : m \in st.errs})
+       ELSE b
+
 (* C03 / C06: every step of a subscription's event queue follows SubQueueOps *)
 H_note(r) ==
-    LET b == H_note0(r)
+    LET b == H_note1(r)
     IN IF r.kind \in SQTNotes /\ "sp" \in DOMAIN r /\ ~o.hadStop /\ o.stop.l = 0
        THEN LET st == SQTStep(Get(o.sq, r.sp, [x |-> SQTNew]).x, r)
             IN Res([b.o EXCEPT !.sq = Put(@, r.sp, [x |-> st.x, c |-> r.c, rid |-> r.rid])],
